@@ -18,4 +18,42 @@ theorem py_clarity_thresholds : Py.clarity_thresholds.ok = false ∨
     norm_num
     try (split_ifs <;> first | rfl | (exfalso; linarith) | (ext <;> norm_num))
 
+/-- the numeric flag `criteria[k]` (0/1) that sesame.py fills in, as the model's Boolean verdict -/
+def flag (b : Bool) : ℝ := if b then 1 else 0
+
+/-- Reliability criteria i–iii as functions of the peak frequency `f0` of the mean curve and of the largest `σ_A` in the
+band `(f0/2, 2·f0)`: exactly the three Booleans of the model's `reliability` (whose meaning is `RelSpec` in `Props/C16`). -/
+theorem py_reliability_criteria : Py.reliability_criteria.ok = false ∨
+    ∀ lw nw f0 smax : ℝ,
+      Py.reliability_criteria lw nw f0 smax =
+        (flag (decide (lit sesameConsts.relI / lw < f0)),
+         flag (decide (lit sesameConsts.relII < lw * nw * f0)),
+         flag (if lit sesameConsts.relIIIsplit < f0 then decide (smax < lit sesameConsts.relIIIa)
+               else decide (smax < lit sesameConsts.relIIIb))) := by
+  bridge_cases
+    intro lw nw f0 smax
+    simp only [Py.reliability_criteria, sesameConsts, flag, lit_real, ofNat_real]
+    try norm_num
+    all_goals (try simp only [Prod.mk.injEq])
+    all_goals (repeat' constructor)
+    all_goals (split_ifs <;> py_logic)
+
+/-- Clarity criteria iii–vi as functions of the peak `(f0, a0)`, the peak frequencies of the ±σ curves, the standard
+deviation of `fn` and `σ_A(f0)`: the Booleans `c3 … c6` of the model's `clarity`, thresholds from `thresholdBand`. -/
+theorem py_clarity_criteria : Py.clarity_criteria.ok = false ∨
+    ∀ f0 a0 fp fm fnStd sig : ℝ,
+      Py.clarity_criteria f0 a0 fp fm fnStd sig =
+        (flag (decide (lit sesameConsts.claIII < a0)),
+         flag ((decide (f0 * lit sesameConsts.claIVlo < fp) && decide (fp < f0 * lit sesameConsts.claIVhi)) &&
+               (decide (f0 * lit sesameConsts.claIVlo < fm) && decide (fm < f0 * lit sesameConsts.claIVhi))),
+         flag (decide (fnStd < (thresholdBand f0).1 * f0)),
+         flag (decide (sig < (thresholdBand f0).2))) := by
+  bridge_cases
+    intro f0 a0 fp fm fnStd sig
+    simp only [Py.clarity_criteria, thresholdBand, sesameBands, sesameLastBand, bandLookup, sesameConsts, flag, lit_real, ofNat_real]
+    try norm_num
+    all_goals (try simp only [Prod.mk.injEq])
+    all_goals (repeat' constructor)
+    all_goals (split_ifs <;> py_logic)
+
 end HV.Bridge
